@@ -97,6 +97,11 @@ namespace cgi {
 				h(booster::system::error_code(errc::protocol_violation,cppcms_category));
 				return;
 			}
+			if(buffer_.size() > size_t(sep_) + 2 && buffer_[buffer_.size()-2]!=0) {
+				// the last value is not NUL terminated: strlen below would run out of the buffer
+				h(booster::system::error_code(errc::protocol_violation,cppcms_category));
+				return;
+			}
 
 			char const *p=&buffer_[sep_ + 1];
 			while(p < &buffer_.back()) {
